@@ -416,8 +416,21 @@ def run_case(case):
             tree = R.parse(etext)
             out["tree"] = dump_tree(tree)
             name = case["name"] if case.get("as_list") is None else list(case["as_list"])
-            r = R.find(objs[case["from"]], name, tree, None if cls is None else mm[cls],
-                       split_string=split, use_proxy=tree.use_proxy)
+            if case.get("unres"):
+                # as during model construction: some reference attributes are not resolved yet
+                flagged = [(objs[i], a) for i, a in case["unres"]]
+
+                class Resolver:
+                    def has_unresolved_crossrefs(self, obj, attr_name=None):
+                        return any(o is obj and (attr_name is None or a == attr_name) for o, a in flagged)
+
+                model._tx_reference_resolver = Resolver()
+            try:
+                r = R.find(objs[case["from"]], name, tree, None if cls is None else mm[cls],
+                           split_string=split, use_proxy=tree.use_proxy)
+            finally:
+                if case.get("unres"):
+                    del model._tx_reference_resolver
             if r is None:
                 out["res"] = "none"
             elif isinstance(r, Postponed):
@@ -584,8 +597,27 @@ def gen_case(rng, mode=None):
             "name": text, "split": split, "cls": cls}
     if mode != "find":
         heap_list(root)[frm][0]["text"] = text
-    elif rng.chance(0.2):
-        case["as_list"] = split_name(text, split)
+    else:
+        if rng.chance(0.2):
+            case["as_list"] = split_name(text, split)
+        if rng.chance(0.25):  # unresolved reference attributes (Postponed)
+            used = set()
+
+            def walk(q):
+                for p in q:
+                    for e in p["elems"]:
+                        while e["k"] == "star":
+                            e = e["e"]
+                        if e["k"] == "nav":
+                            used.add(e["name"])
+                        elif e["k"] == "br":
+                            walk(e["seq"])
+
+            walk(seq)
+            holders = [(i, a) for i, (n, _) in enumerate(heap_list(root)) for a in ("r", "rs")
+                       if n.get(a) not in (None, []) and a in used]
+            if holders:
+                case["unres"] = [list(h) for h in rng.sample(holders, min(len(holders), rng.randint(1, 2)))]
     return case
 
 
@@ -602,6 +634,8 @@ def check_property(case, obs):
     if res == "error":
         return f"evaluation raised {obs.get('type')}: {obs.get('msg')}"
     if res == "postponed":
+        if case.get("unres"):
+            return None  # the answer is deferred; nothing to judge yet
         return "evaluation on a completely resolved model returned Postponed"
     per_alt = [spec.targets([p], frm, cls) for p in seq]
     targets = set().union(*per_alt)
@@ -650,6 +684,8 @@ def _renumber(case, root, keep_from_tag):
         return None
     out = dict(case, heap=root)
     out["from"] = new[case["from"]]
+    if case.get("unres"):
+        out["unres"] = [[new[i], a] for i, a in case["unres"] if i in new]
     for n, _ in objs:
         n.pop("_old", None)
     return out
@@ -733,6 +769,9 @@ def shrink_case(case):
         yield dict(case, expr=dict(case["expr"], seq=s))
     if case["expr"].get("flags"):
         yield dict(case, expr=dict(case["expr"], flags=""))
+    if case.get("unres"):
+        for i in range(len(case["unres"])):
+            yield dict(case, unres=case["unres"][:i] + case["unres"][i + 1:])
     if case.get("cls") is not None and case["mode"] == "find":
         yield dict(case, cls=None)
 
@@ -819,7 +858,7 @@ class Prop(Check):
     def model_req(self, case, obs):
         if "tree" not in obs:
             return None
-        req = {"op": "find", "unres": [], "extra": [], "top": obs["tree"]["top"], "o": case["from"],
+        req = {"op": "find", "unres": case.get("unres") or [], "extra": [], "top": obs["tree"]["top"], "o": case["from"],
                "cls": case.get("cls"), "fuel": self.FUEL}
         if case.get("as_list") is not None:
             req["ns"] = list(case["as_list"])
